@@ -1,5 +1,6 @@
 import CandidModel.Proofs.Wire
 import CandidModel.Proofs.Annotate
+import CandidModel.Proofs.AnnotateId
 /-
   C10 — Untyped values survive annotate, encode and decode at their type.
   `Wire.annotate` mirrors `IDLValue::annotate_type`.  Theorems: the three allowances of the property
@@ -76,5 +77,30 @@ example :
     (match annotate true env 20 v (.var "T") with
      | .ok (.record [(.id 1, .int 3), (.id 7, .opt (.record [(.id 1, .int 5), (.id 7, .none)]))]) => true
      | _ => false) = true := by decide
+
+/-- **Annotating a value of the type with the type succeeds and keeps it**: for every environment and type whose
+records and variants have distinct field ids (what the checker guarantees), every canonical value `v` of the type
+(`canon`: the values the reader returns at the type — labels and variant index of the type, numbers in range) and
+every budget above the value's nesting, from the parser or not: `annotate_type` returns a value, and that value is `v`
+itself, a vector of bytes coming back in its `blob` spelling (`unblob`).  With
+`annotated_value_is_canonical` (whatever annotation returns is canonical) annotation is idempotent on its range. -/
+theorem annotating_a_value_of_the_type_returns_it (env : Env)
+    (hsh : ∀ x d, env.find x = some d → shapeTy d = true) (fp : Bool) (n : Nat) (v : Val) (t : Ty)
+    (hc : canon env n v t = true) (hs : shapeTy t = true) (fuel : Nat) (hf : n < fuel) :
+    ∃ v', annotate fp env fuel v t = .ok v' ∧ unblob v' = v :=
+  annotate_of_canon env hsh fp n v t hc hs fuel hf
+
+/-- non-vacuity: a recursive record type, a canonical value of it with a byte vector inside -/
+example :
+    let env : Env := [("T", .record (.cons (.id 1) (.vec (.prim .nat8)) (.cons (.id 7) (.opt (.var "T")) .nil)))]
+    let v : Val := .record [(.id 1, .vec [.nat8 3, .nat8 255]), (.id 7, .opt (.record [(.id 1, .vec []), (.id 7, .none)]))]
+    canon env 8 v (.var "T") = true ∧ shapeTy (.var "T") = true ∧
+      (∀ x d, env.find x = some d → shapeTy d = true) := by
+  refine ⟨by decide, by decide, ?_⟩
+  intro x d h
+  simp only [Env.find] at h
+  split at h
+  · simp only [Option.some.injEq] at h; subst h; decide
+  · simp at h
 
 end Candid.Props.C10
